@@ -251,6 +251,17 @@ def round_value_messages():
                     if (V, w) not in seen and w >= V.bit_length():
                         seen.add((V, w))
                         out.append(U.bits_of(V, w))
+    # three-block values a.m.delta in blocks of 9, 15 and 18 digits whose middle block starts with zeros:
+    # a carry out of the low block stops in a block that is neither the lowest nor the top one
+    for B in (10 ** 9, 10 ** 15, 10 ** 18):
+        for a in (7, 31):
+            for m in (1, 12345681, B // 10, B // 10 - 1, B // 1000 + 999):
+                for delta in (0, 1, 2):
+                    V = a * B * B + m * B + delta
+                    for w in (V.bit_length(), V.bit_length() + 1):
+                        if (V, w) not in seen:
+                            seen.add((V, w))
+                            out.append(U.bits_of(V, w))
     return out
 
 
